@@ -41,6 +41,7 @@ var (
 	errOverflow          = errors.New("overflow")
 	errNotEnoughData     = errors.New("not enough data")
 	errNaN               = errors.New("invalid value NaN")
+	errInvalidSampleRate = errors.New("invalid sample rate")
 )
 
 var escapedNewline = []byte("\\n")
@@ -463,6 +464,10 @@ func lexMetricAttribute(l *Lexer) stateFn {
 		v, err := strconv.ParseFloat(string(input), 64)
 		if err != nil {
 			l.err = err
+			return nil
+		}
+		if math.IsNaN(v) || math.IsInf(v, 0) || v <= 0 {
+			l.err = errInvalidSampleRate
 			return nil
 		}
 		l.sampling = v
